@@ -56,14 +56,20 @@ SIM_SCENARIO(scen_c15, "c15", "C15", 6000000, 30000) {
         // the consumer is either a queueing sink (push mode) or a slow rejecting serial node (the queue keeps the
         // items, the edge flips to pull mode, the ring buffer wraps while items leave one at a time)
         bool pull = sim::draw_bool("rejecting_consumer");
-        function_node<int, int, rejecting> slow(g, serial, [](int m) { for (int i = 0; i < 6; ++i) sim::upoint(); return m; });
+        // the hand-over order is recorded where the queue's items are taken (slow's serial body): a serial
+        // function_node releases its next input before it forwards its output, so outputs of `slow` may legitimately
+        // overtake each other on the way to the sink and the sink's log says nothing about the queue
+        std::vector<int> taken; int in_slow = 0;
+        function_node<int, int, rejecting> slow(g, serial, [&](int m) { SIM_CHECK(in_slow++ == 0, "oracle:serial-sink", "serial rejecting node entered concurrently"); taken.push_back(m); for (int i = 0; i < 6; ++i) sim::upoint(); --in_slow; return m; });
         queue_node<int> q(g);
         if (pull) { make_edge(q, slow); make_edge(slow, sink); } else make_edge(q, sink);
         auto msgs = split_msgs(n, threads, false);
         put_concurrently(q, msgs);
         g.wait_for_all();
         SIM_CHECK((int)rec.order.size() == n, "oracle:message-lost", "queue_node delivered %zu of %d messages", rec.order.size(), n);
-        for (auto& v : msgs) { int last = -1; for (int m : rec.order) if (std::find(v.begin(), v.end(), m) != v.end()) { SIM_CHECK(m > last, "oracle:fifo", "queue_node reordered messages of one putter (%d after %d)", m, last); last = m; } }
+        if (pull) SIM_CHECK((int)taken.size() == n, "oracle:message-lost", "queue_node handed %zu of %d messages to its pulling successor", taken.size(), n);
+        const std::vector<int>& order = pull ? taken : rec.order;
+        for (auto& v : msgs) { int last = -1; for (int m : order) if (std::find(v.begin(), v.end(), m) != v.end()) { SIM_CHECK(m > last, "oracle:fifo", "queue_node reordered messages of one putter (%d after %d)", m, last); last = m; } }
         std::set<int> u(rec.order.begin(), rec.order.end()); SIM_CHECK((int)u.size() == n, "oracle:message-twice", "queue_node duplicated a message");
         break;
     }
@@ -199,23 +205,39 @@ SIM_SCENARIO(scen_c15, "c15", "C15", 6000000, 30000) {
         SIM_CHECK(t0 == n && t1 == n, "oracle:routing", "indexer_node delivered %d/%d of %d", t0, t1, n);
         break;
     }
-    default: {  // buffer reservation: released items are not lost, consumed items never come back
-        queue_node<int> q(g);
-        for (int i = 0; i < n; ++i) q.try_put(i);
-        std::vector<int> consumed;
+    default: {  // buffer reservation: released items are not lost, consumed items never come back, also while puts
+                // arrive and while a push successor competes with the reserving parties for the same front item
+        int which = (int)sim::draw(3, "reservable_node");      // queue_node, buffer_node, sequencer_node
+        bool push_succ = sim::draw_bool("push_successor");
+        int prefill = (int)sim::draw_range(0, n, "prefill");
+        queue_node<int> qn(g); buffer_node<int> bn(g); sequencer_node<int> sn(g, [](const int& m) -> size_t { return (size_t)m; });
+        sender<int>* snd = which == 0 ? static_cast<sender<int>*>(&qn) : which == 1 ? static_cast<sender<int>*>(&bn) : static_cast<sender<int>*>(&sn);
+        receiver<int>* rcv = which == 0 ? static_cast<receiver<int>*>(&qn) : which == 1 ? static_cast<receiver<int>*>(&bn) : static_cast<receiver<int>*>(&sn);
+        if (push_succ) make_edge(*snd, sink);
+        for (int i = 0; i < prefill; ++i) rcv->try_put(i);
+        std::vector<int> consumed; bool putter_done = false;
         std::vector<std::function<void()>> fns;
+        fns.push_back([&] { for (int i = prefill; i < n; ++i) { sim::upoint(); bool ok = rcv->try_put(i); SIM_CHECK(ok, "oracle:unexpected-reject", "try_put(%d) rejected by a buffering node", i); } putter_done = true; });
         for (int t = 0; t < threads; ++t) fns.push_back([&] {
-            for (int k = 0; k < n + 2; ++k) {
+            for (int k = 0; k < n + 2 || (!putter_done && k < 4 * n + 8); ++k) {
                 int v = -1; sim::upoint();
-                if (q.try_reserve(v)) { sim::upoint(); if (sim::draw(3, "release") == 0) q.try_release(); else { q.try_consume(); consumed.push_back(v); } }
+                if (snd->try_reserve(v)) {
+                    sim::probe("reserve:held"); sim::upoint(); if (sim::draw_bool("hold_longer")) for (int i = 0; i < 5; ++i) sim::upoint();
+                    if (sim::draw(3, "release") == 0) snd->try_release(); else { snd->try_consume(); consumed.push_back(v); }
+                }
             }
         });
         hx::run_fibers(fns);
-        g.wait_for_all();     // forwarding tasks spawned by the puts must be finished before q goes out of scope
-        int v; while (q.try_get(v)) consumed.push_back(v);
-        std::sort(consumed.begin(), consumed.end());
-        SIM_CHECK((int)consumed.size() == n, "oracle:message-lost", "%zu of %d items came out of the buffer (released items lost or consumed items duplicated)", consumed.size(), n);
-        for (int i = 0; i < n; ++i) SIM_CHECK(consumed[(size_t)i] == i, "oracle:message-twice", "item %d missing or duplicated", i);
+        g.wait_for_all();     // forwarding tasks spawned by the puts must be finished before the node goes out of scope
+        int v; while (snd->try_get(v)) consumed.push_back(v);
+        g.wait_for_all();
+        if (push_succ && !rec.order.empty() && consumed.size() > 0) sim::probe("reserve:raced-push-successor");
+        std::vector<int> all(consumed); all.insert(all.end(), rec.order.begin(), rec.order.end());
+        std::sort(all.begin(), all.end());
+        for (size_t i = 1; i < all.size(); ++i) SIM_CHECK(all[i] != all[i - 1], "oracle:message-twice", "item %d came out of the %s twice (reserved item also forwarded, or consumed item handed out again)", all[i], which == 0 ? "queue_node" : which == 1 ? "buffer_node" : "sequencer_node");
+        SIM_CHECK((int)all.size() == n, "oracle:message-lost", "%zu of %d items came out of the buffer (released items lost or a consume destroyed an item nobody received)", all.size(), n);
+        if (which != 1 && push_succ) { /* FIFO/sequence order is per receiving party only; the sink log of a queue/sequencer is increasing */
+            for (size_t i = 1; i < rec.order.size(); ++i) SIM_CHECK(rec.order[i] > rec.order[i - 1], "oracle:fifo", "push successor received %d after %d", rec.order[i], rec.order[i - 1]); }
         break;
     }
     }
